@@ -1,7 +1,7 @@
 (* wire glue for engine 107 (row codec, property C07) *)
 (* WIRE engine=107 fn=dispatch_c07 *)
 From Coq Require Import List NArith Bool.
-From RPFT Require Import Base.Sexp Base.PyStr Base.Result Gen.Tables Cell.Cell Row.Ty Row.Layout Row.RowParse Row.RowUnparse Row.FlowRow Row.RoundTrip Row.CtxRoundTripFacts Row.FlowRowFacts Io.XlsxCell.
+From RPFT Require Import Base.Sexp Base.PyStr Base.Result Gen.Tables Cell.Cell Row.Ty Row.Layout Row.RowParse Row.RowUnparse Row.FlowRow Row.RoundTrip Row.CtxRoundTripFacts Row.FlowRowFacts Row.Session Io.XlsxCell.
 Import ListNotations.
 Local Open Scope N_scope.
 
@@ -51,8 +51,20 @@ Definition dispatch_c07 (fn : N) (args : list sexp) : sexp :=
     | Some v' => enc_bool (flow_dom v')
     | None => s_badinput
     end
-  (* 8: one cell text through RowDataSheet.export(xlsx) + XLSXSheetReader *)
-  | 8, [t] =>
+  (* 8: a session (family of classes, operations on their long-lived parsers): the result of every operation *)
+  | 8, [L fam; L ops] =>
+    match dec_list_aux dec_decl fam, dec_list_aux dec_op ops with
+    | Some fam', Some ops' => L (map enc_opres (run_session fam' ops'))
+    | _, _ => s_badinput
+    end
+  (* 9: names and defaults of the fields of every class of a family (derived classes resolved) *)
+  | 9, [L fam] =>
+    match dec_list_aux dec_decl fam with
+    | Some fam' => L (map enc_class_fields (classes fam'))
+    | None => s_badinput
+    end
+  (* 10: one cell text through RowDataSheet.export(xlsx) + XLSXSheetReader *)
+  | 10, [t] =>
     match dec_str t with
     | Some t' => enc_str (xlsx_cell_roundtrip t')
     | None => s_badinput
